@@ -56,7 +56,8 @@ Paths == {PathSeq[i] : i \in DOMAIN PathSeq}
 HolderOf(p) == PathInfo[p].holder
 PathsOf(h) == {p \in Paths : HolderOf(p) = h}
 Hows == {"overwrite", "delete", "freeze", "getter", "proto"}
-PassKinds == {"fn", "arr", "err", "prom", "sym"}
+RichKinds == {"xarr", "xerr", "xprom", "ufn", "eval", "fctor", "gen", "cls", "tmpl", "args"}
+PassKinds == {"fn", "arr", "err", "prom", "sym"} \cup RichKinds
 
 (***************************************************************************************************************)
 (* Property cells and holder objects.  v: which value a Get finds (orig = the built-in, repl = the function    *)
@@ -153,9 +154,15 @@ ObsPath(view, p) ==
   ELSE CellV(view, p)
 ObsHolder(view, h) == [frozen |-> ~view[h].ext, proto |-> view[h].proto = "orig"]
 
+(* kinds of objects handed over.  fn: a function whose body is the probe of a path.  arr / err / prom / sym: an array, *)
+(* an error, a settled promise, a registered symbol with a small identity probe.  RichKinds: objects whose identity    *)
+(* probe exercises many cross-realm rules at once (GetFunctionRealm, ArraySpeciesCreate, indirect eval, template       *)
+(* objects, literals inside foreign function code ...) and therefore reaches many intrinsics of both realms: the        *)
+(* prediction is given only while both realms are pristine.                                                           *)
 ProtoHolderOfKind(k) ==
-  CASE k = "fn" -> "Function.prototype" [] k = "arr" -> "Array.prototype" [] k = "err" -> "Error.prototype"
-    [] k = "prom" -> "Promise.prototype" [] k = "sym" -> "Symbol"
+  CASE k \in {"arr", "xarr"} -> "Array.prototype" [] k \in {"err", "xerr"} -> "Error.prototype"
+    [] k \in {"prom", "xprom"} -> "Promise.prototype" [] k = "sym" -> "Symbol"
+    [] OTHER -> "Function.prototype"
 (* catalogue paths the identity probe of a kind reaches in the evaluating realm / in the creator realm *)
 IdentNeedsHere(k) ==
   CASE k = "fn" -> {"globalThis.Object"}
@@ -163,6 +170,7 @@ IdentNeedsHere(k) ==
     [] k = "err" -> {"globalThis.Error"}
     [] k = "prom" -> {"globalThis.Promise"}
     [] k = "sym" -> {"globalThis.Symbol", "Symbol.for"}
+    [] OTHER -> {}
 IdentNeedsThere(k) == IF k = "prom" THEN {"Promise.prototype.then"} ELSE {}
 
 (* expected observation of evaluating, in realm r, the probes of path set ps and of the inbox *)
@@ -176,8 +184,9 @@ ExpectIn(r, ps) ==
              ELSE IF o.kind = "fn"
                THEN [kind |-> "fn", creator |-> o.creator, path |-> o.path, st |-> ObsPath(Replay(o.creator), o.path)]
              ELSE [kind |-> o.kind, creator |-> o.creator, same |-> (o.creator = r),
-                   ok |-> (\A q \in IdentNeedsHere(o.kind) : CellV(own, q) = "orig")
-                          /\ (\A q \in IdentNeedsThere(o.kind) : CellV(Replay(o.creator), q) = "orig")]]
+                   ok |-> IF o.kind \in RichKinds THEN own = PristineView /\ Replay(o.creator) = PristineView
+                          ELSE (\A q \in IdentNeedsHere(o.kind) : CellV(own, q) = "orig")
+                               /\ (\A q \in IdentNeedsThere(o.kind) : CellV(Replay(o.creator), q) = "orig")]]
 
 (***************************************************************************************************************)
 (* Actions                                                                                                     *)
@@ -266,6 +275,7 @@ SabotageAll(r, rot) ==
 (* a function whose body is the probe of path p (it resolves intrinsics in ITS realm, ECMA-262 10.2.1.1).       *)
 Pass(from, to, kind, p) ==
   /\ Live(from) /\ Live(to)
+  /\ kind \in RichKinds => Replay(from) = PristineView       \* (the maker expression of a rich kind needs a pristine realm)
   /\ heap' = heap @@ (next :> [kind |-> kind, creator |-> from, path |-> p,
                                protoId |-> intr[from][ProtoHolderOfKind(kind)]])
   /\ next' = next + 1
